@@ -28,7 +28,7 @@ From V Require Import Model.ZMap Model.Quorum Model.Voting Model.VotingRef Model
   Proofs.NoFail Proofs.AgreementU Proofs.FameInv Proofs.FamousSet Proofs.DecidedFlag Proofs.RoundReceived
   Proofs.BlockAgree Proofs.AgreementWitness Proofs.WindowWitness
   Model.Window Proofs.WindowStable Proofs.GapWindow Proofs.RoundAgreeD Proofs.ShrinkWitness
-  Model.VotingRefD Proofs.VotingProofsD Proofs.RoundOrder Proofs.CInvRunD Proofs.ViewOk Proofs.ViewOkD Proofs.SameHistoryD Proofs.AgreementD.
+  Model.VotingRefD Proofs.VotingProofsD Proofs.RoundOrder Proofs.CInvRunD Proofs.ViewOk Proofs.ViewOkD Proofs.SameHistoryD Proofs.AgreementD Proofs.FameInvD Proofs.LateWitnessD Proofs.FamousSetD Proofs.DecidedFlagD Proofs.RoundReceived Proofs.RoundReceivedD.
 Import ListNotations.
 Open Scope Z_scope.
 
@@ -562,6 +562,111 @@ Theorem C01_fame_agreement_dynamic_fork_free_universe :
   fame_of (hrun (init_hg self2 genesis2 oracle2) ops2) x r = Some (Some v2) -> v1 = v2.
 Proof. exact gap_fame_agreement_universe. Qed.
 Print Assumptions C01_fame_agreement_dynamic_fork_free_universe.
+
+(* the fame values RECORDED in the round tables: in a node that respects the distance bound, a recorded value is the
+   value of the voting loop read in the current state (computed in an earlier state, with a table that had fewer
+   entries: decisions are stable and the entries written since lie above every round the loop visits), hence two such
+   nodes whose tables agree never record different fame for one witness -- what the shrink fork violated *)
+Theorem C01_recorded_fame_is_vote_dynamic : forall genesis all self_ oracle_ ops r ri x (v : bool),
+  self_ <> -1 -> ids_determine all -> Forall (hop_ok all) ops ->
+  gap_runb (init_hg self_ genesis oracle_) ops = true ->
+  failed (hrun (init_hg self_ genesis oracle_) ops) = false ->
+  get_round (hrun (init_hg self_ genesis oracle_) ops) r = Some ri ->
+  aget x (ri_created ri) = Some (true, if v then TTrue else TFalse) ->
+  fame_of (hrun (init_hg self_ genesis oracle_) ops) x r = Some (Some v).
+Proof. exact recorded_fame_is_vote_gap. Qed.
+Print Assumptions C01_recorded_fame_is_vote_dynamic.
+
+Theorem C01_recorded_fame_agreement_dynamic :
+  forall all self1 self2 genesis1 genesis2 oracle1 oracle2 ops1 ops2 r x ri1 ri2 (v1 v2 : bool),
+  ids_determine all -> self1 <> -1 -> self2 <> -1 ->
+  Forall (hop_ok all) ops1 -> Forall (hop_ok all) ops2 ->
+  gap_runb (init_hg self1 genesis1 oracle1) ops1 = true -> gap_runb (init_hg self2 genesis2 oracle2) ops2 = true ->
+  failed (hrun (init_hg self1 genesis1 oracle1) ops1) = false -> failed (hrun (init_hg self2 genesis2 oracle2) ops2) = false ->
+  tables_agree (hrun (init_hg self1 genesis1 oracle1) ops1) (hrun (init_hg self2 genesis2 oracle2) ops2) ->
+  no_cross_fork (hrun (init_hg self1 genesis1 oracle1) ops1) (hrun (init_hg self2 genesis2 oracle2) ops2) ->
+  get_round (hrun (init_hg self1 genesis1 oracle1) ops1) r = Some ri1 ->
+  aget x (ri_created ri1) = Some (true, if v1 then TTrue else TFalse) ->
+  get_round (hrun (init_hg self2 genesis2 oracle2) ops2) r = Some ri2 ->
+  aget x (ri_created ri2) = Some (true, if v2 then TTrue else TFalse) ->
+  v1 = v2.
+Proof. exact recorded_fame_agreement_gap. Qed.
+Print Assumptions C01_recorded_fame_agreement_dynamic.
+
+(* two such nodes that have each decided all the round-r witnesses they know (at least a super-majority of the set
+   their table gives for round r: the condition under which WitnessesDecided sets its flag) hold the same famous
+   witnesses of round r; a witness one of them learns later cannot be famous (late-witness lemma, LateWitnessD.v) *)
+Theorem C01_famous_witnesses_agree_dynamic :
+  forall all self1 self2 genesis1 genesis2 oracle1 oracle2 ops1 ops2 r ri1 ri2 x,
+  ids_determine all -> self1 <> -1 -> self2 <> -1 ->
+  Forall (hop_ok all) ops1 -> Forall (hop_ok all) ops2 ->
+  gap_runb (init_hg self1 genesis1 oracle1) ops1 = true -> gap_runb (init_hg self2 genesis2 oracle2) ops2 = true ->
+  let st1 := hrun (init_hg self1 genesis1 oracle1) ops1 in
+  let st2 := hrun (init_hg self2 genesis2 oracle2) ops2 in
+  failed st1 = false -> failed st2 = false -> tables_agree st1 st2 -> no_cross_fork st1 st2 ->
+  full_decD (psat st1 r) st1 r -> full_decD (psat st2 r) st2 r ->
+  get_round st1 r = Some ri1 -> get_round st2 r = Some ri2 ->
+  (In x (famous_witnesses ri1) <-> In x (famous_witnesses ri2)).
+Proof. exact famous_witnesses_agree_gap. Qed.
+Print Assumptions C01_famous_witnesses_agree_dynamic.
+
+(* the same in terms of the model's sticky flag: two such nodes whose round r is flagged "witnesses decided" hold the
+   same famous witnesses of round r, whenever each flag was set (a flag that is set was set in a state of the run in
+   which the round was fully decided against the set the table gives for round r: flag_historyD; the famous witnesses
+   have not changed since: famous_stableD) *)
+Theorem C01_famous_witnesses_agree_decided_dynamic :
+  forall all self1 self2 genesis1 genesis2 oracle1 oracle2 ops1 ops2 r ri1 ri2 x,
+  ids_determine all -> self1 <> -1 -> self2 <> -1 ->
+  Forall (hop_ok all) ops1 -> Forall (hop_ok all) ops2 ->
+  gap_runb (init_hg self1 genesis1 oracle1) ops1 = true -> gap_runb (init_hg self2 genesis2 oracle2) ops2 = true ->
+  let st1 := hrun (init_hg self1 genesis1 oracle1) ops1 in
+  let st2 := hrun (init_hg self2 genesis2 oracle2) ops2 in
+  failed st1 = false -> failed st2 = false -> tables_agree st1 st2 -> no_cross_fork st1 st2 ->
+  get_round st1 r = Some ri1 -> get_round st2 r = Some ri2 ->
+  ri_decided ri1 = true -> ri_decided ri2 = true ->
+  (In x (famous_witnesses ri1) <-> In x (famous_witnesses ri2)).
+Proof. exact famous_witnesses_agree_decided_gap. Qed.
+Print Assumptions C01_famous_witnesses_agree_decided_dynamic.
+
+(* ROUND-RECEIVED UNDER DYNAMIC MEMBERSHIP.  What a round-received value means, read in the current state of a node
+   that respects the distance bound: x has round r; the rounds r+1..i are flagged decided; i is the first of them whose
+   famous witnesses all see x and number at least a super-majority OF THE SET THE TABLE GIVES FOR THAT ROUND
+   ([rrspecD (psat st)]: [rcond (psat st j) st j x] for round j).  Two such nodes whose tables agree on the rounds both
+   have, and that have both assigned a round-received to x, assigned the same. *)
+Theorem C01_round_received_spec_dynamic : forall genesis all self_ oracle_ ops x ex i,
+  self_ <> -1 -> ids_determine all -> Forall (hop_ok all) ops ->
+  gap_runb (init_hg self_ genesis oracle_) ops = true ->
+  let st := hrun (init_hg self_ genesis oracle_) ops in
+  failed st = false -> get_event st x = Some ex -> ev_rr ex = Some i ->
+  exists r, ev_round ex = Some r /\ rrspecD (psat st) st x r i.
+Proof. exact rr_spec_gap. Qed.
+Print Assumptions C01_round_received_spec_dynamic.
+
+Theorem C01_round_received_agreement_dynamic :
+  forall all self1 self2 genesis1 genesis2 oracle1 oracle2 ops1 ops2 x e1 e2 i1 i2,
+  ids_determine all -> self1 <> -1 -> self2 <> -1 ->
+  Forall (hop_ok all) ops1 -> Forall (hop_ok all) ops2 ->
+  gap_runb (init_hg self1 genesis1 oracle1) ops1 = true -> gap_runb (init_hg self2 genesis2 oracle2) ops2 = true ->
+  let st1 := hrun (init_hg self1 genesis1 oracle1) ops1 in
+  let st2 := hrun (init_hg self2 genesis2 oracle2) ops2 in
+  failed st1 = false -> failed st2 = false -> tables_agree st1 st2 -> no_cross_fork st1 st2 ->
+  get_event st1 x = Some e1 -> get_event st2 x = Some e2 ->
+  ev_rr e1 = Some i1 -> ev_rr e2 = Some i2 -> i1 = i2.
+Proof. exact rr_agreement_gap. Qed.
+Print Assumptions C01_round_received_agreement_dynamic.
+
+Theorem C01_round_received_agreement_dynamic_fork_free_universe :
+  forall all self1 self2 genesis1 genesis2 oracle1 oracle2 ops1 ops2 x e1 e2 i1 i2,
+  ids_determine all -> fork_free all -> self1 <> -1 -> self2 <> -1 ->
+  Forall (hop_ok all) ops1 -> Forall (hop_ok all) ops2 ->
+  gap_runb (init_hg self1 genesis1 oracle1) ops1 = true -> gap_runb (init_hg self2 genesis2 oracle2) ops2 = true ->
+  let st1 := hrun (init_hg self1 genesis1 oracle1) ops1 in
+  let st2 := hrun (init_hg self2 genesis2 oracle2) ops2 in
+  failed st1 = false -> failed st2 = false -> tables_agree st1 st2 ->
+  get_event st1 x = Some e1 -> get_event st2 x = Some e2 ->
+  ev_rr e1 = Some i1 -> ev_rr e2 = Some i2 -> i1 = i2.
+Proof. exact rr_agreement_gap_universe. Qed.
+Print Assumptions C01_round_received_agreement_dynamic_fork_free_universe.
 
 (* REGRESSION WITNESS for fix 05eda0b (known finding C01-fame-threshold-after-shrink): A SECOND FORK UNDER
    DYNAMIC MEMBERSHIP, INDEPENDENT OF THE WINDOW, in the code before the fix.  DecideFame decided at a round-j witness
